@@ -804,6 +804,7 @@ def same_object(a, b):
 
 PURE_CALLS = {("cost_function", "chi2_probability"), ("cost_function", "goodness_of_fit"), ("pointwise", "goodness_of_fit"), ("fitter", "get_fit_parameter_values"), ("model", "eval_model_function_derivative_by_x"), ("model", "get_matching_errors"),
               ("container", "get_matching_errors")}
+MODEL_VALUE_ATTRS = {"data", "y", "err", "cov_mat", "cov_mat_inverse", "cor_mat", "x_err", "y_err", "x_cov_mat", "y_cov_mat", "x_cor_mat", "y_cor_mat", "x_cov_mat_inverse", "y_cov_mat_inverse", "bin_evaluation"}
 ALLOWED_PUSH = {"parameters", "x"}          # the lazy push of the current parameter values / x values into the parametric model
 ALLOWED_FLAGS = {"_dynamic_error_warning_printed", "_slow_chi2_warning_printed"}          # 'warning already shown' flags
 
@@ -844,6 +845,10 @@ def u_reads(root):
                     out = [("no attribute of the container, fitter, cost function or formatters is assigned", z3.BoolVal(not bad_sets)),
                            ("the parametric model only receives the CURRENT parameter values of the graph / the x values of the container (lazy push)", z3.BoolVal(all(current(x) for x in pushes))),
                            ("no node is marked, frozen, unfrozen or assigned", z3.BoolVal(not calls)), ("the only methods called on the parts are queries (cost / goodness-of-fit evaluation, parameter lookup, source lookup, model derivative): no source is added, disabled or enabled, the minimizer is not reset or run", z3.BoolVal(not mutating_calls))]
+                    first_push = min([i_ for i_, x in enumerate(trace) if x[0] == "set" and x[1] == "model" and x[2] == "parameters" and current(x)], default=None)
+                    early = [x[2] for i_, x in enumerate(trace) if x[0] == "read" and x[1] == "model" and x[2] in MODEL_VALUE_ATTRS and (first_push is None or i_ < first_push)]
+                    out.append(("values of the parametric model (data, y, uncertainties, matrices) are read only AFTER the current parameter values were pushed into it: no observable shows the model at older parameter values",
+                                z3.BoolVal(not early)))
                     same = []
                     for fld, ty in SCHEMA["FitBase"].items():
                         if fld in ALLOWED_FLAGS:
